@@ -446,9 +446,19 @@ func c18kListenIndependence(version string) (obs, sig, msg string) {
 // naming whatever version it likes (a newer SDK names its own latest one; the server answers with a
 // version of its own, and the session is a legacy session).  Whatever was named, the session is
 // entitled to list-changed and resource-updated notifications, and the server may send it requests.
-func c18kRawLegacy(version string) (obs, sig, msg string) {
+func c18kRawLegacy(version string) (obs, sig, msg string) { return c18kRawLegacyAt(version, false) }
+
+// c18kRawLegacyAt: with lateInitialized the peer lists the tools as soon as its initialize has been
+// answered, and sends notifications/initialized only after the change (and the debounce delay): it
+// holds a list that has gone stale, so by the time it has completed the handshake - at the latest - it
+// must have been told.
+func c18kRawLegacyAt(version string, lateInitialized bool) (obs, sig, msg string) {
 	fail := func(s, format string, a ...any) (string, string, string) {
-		return "", "c18 kinds raw-legacy " + s, fmt.Sprintf(format, a...) + fmt.Sprintf(" [initialize named %s]", version)
+		w := ""
+		if lateInitialized {
+			w = ", initialized sent after the change"
+		}
+		return "", "c18 kinds raw-legacy " + s, fmt.Sprintf(format, a...) + fmt.Sprintf(" [initialize named %s%s]", version, w)
 	}
 	ctx := context.Background()
 	s := c18kServer(0)
@@ -502,14 +512,29 @@ func c18kRawLegacy(version string) (obs, sig, msg string) {
 	if init.Result.ProtocolVersion >= "2026-07-28" || init.Result.ProtocolVersion == "" {
 		return fail("initialize-answered-modern", "initialize answered with version %q", init.Result.ProtocolVersion)
 	}
-	send(`{"jsonrpc":"2.0","method":"notifications/initialized","params":{}}`)
-	send(`{"jsonrpc":"2.0","id":2,"method":"resources/subscribe","params":{"uri":"file:///base"}}`)
-	synctest.Wait()
+	if lateInitialized {
+		send(`{"jsonrpc":"2.0","id":7,"method":"tools/list","params":{}}`)
+		synctest.Wait()
+		if !strings.Contains(lines[len(lines)-1], `"tools"`) {
+			return fail("list-refused-after-initialize", "tools/list after the answered initialize: %q", lines[len(lines)-1])
+		}
+	} else {
+		send(`{"jsonrpc":"2.0","method":"notifications/initialized","params":{}}`)
+		send(`{"jsonrpc":"2.0","id":2,"method":"resources/subscribe","params":{"uri":"file:///base"}}`)
+		synctest.Wait()
+	}
 	for _, kk := range c18kKinds() {
 		kk.add(s, "x")
 	}
 	time.Sleep(time.Second) // the debounce delay passes
 	synctest.Wait()
+	if lateInitialized {
+		send(`{"jsonrpc":"2.0","method":"notifications/initialized","params":{}}`)
+		send(`{"jsonrpc":"2.0","id":2,"method":"resources/subscribe","params":{"uri":"file:///base"}}`)
+		synctest.Wait()
+		time.Sleep(time.Second)
+		synctest.Wait()
+	}
 	for _, m := range []string{"notifications/tools/list_changed", "notifications/prompts/list_changed", "notifications/resources/list_changed"} {
 		if count(m) == 0 {
 			return fail("notification-lost "+m, "the session (initialize answered with %s) was sent no %s after a change; it received %q", init.Result.ProtocolVersion, m, lines)
@@ -578,6 +603,7 @@ func TestVerifC18Kinds(t *testing.T) {
 		if tr == "inmem" {
 			for _, version := range []string{"2024-11-05", "2025-03-26", "2025-06-18", "2025-11-25", "2026-07-28", "2029-01-01", "1999-01-01", ""} {
 				run(fmt.Sprintf("raw-legacy initialize names %q", version), via(func() (string, string, string) { return c18kRawLegacy(version) }))
+				run(fmt.Sprintf("raw-legacy initialize names %q, initialized sent after the change", version), via(func() (string, string, string) { return c18kRawLegacyAt(version, true) }))
 			}
 			for _, ends := range []string{"older", "newer"} {
 				run(fmt.Sprintf("listen-overlap %s-ends", ends), via(func() (string, string, string) { return c18kListenOverlap(ends) }))
